@@ -588,12 +588,16 @@ def _stack(arrays, *args, **kwargs):
 
 
 @implements("unwrap", "function")
-def _unwrap(p, discont=None, axis=-1):
+def _unwrap(p, discont=None, axis=-1, *, period=2 * np.pi):
     # np.unwrap only dispatches over p argument, so assume it is a Quantity
-    discont = np.pi if discont is None else discont
-    return p._REGISTRY.Quantity(np.unwrap(p.m_as("rad"), discont, axis=axis), "rad").to(
-        p.units
-    )
+    # p is unwrapped in radians: bare discont and period are in radians
+    if _is_quantity(period):
+        period = period.m_as("rad")
+    if _is_quantity(discont):
+        discont = discont.m_as("rad")
+    return p._REGISTRY.Quantity(
+        np.unwrap(p.m_as("rad"), discont, axis=axis, period=period), "rad"
+    ).to(p.units)
 
 
 @implements("copyto", "function")
